@@ -55,7 +55,7 @@ PROPS = {
               "thorough": [["store-C02", "--scenarios", "40", "--ops", "2000"]]},
         trusted=STORE_TRUST,
         statement="open(file s) re-establishes the state for any options; reopen is a spec no-op",
-        partial="proved: reopening (read-only or writable) any state reachable by any operation sequence changes no byte, re-establishes the representation invariant and yields the same store (C02.reopen_after_any_history); scanFile ∘ render reconstructs index/free map/sequence number for every well-formed segment list (any zero tail). Collection layer: NewCollection on the file left by any sequence of document operations (any keeping mode, any caller options) succeeds, changes no byte, keeps the creation options and answers GetDocument/GetAllIDs as the specification says (reopen_collection_after_any_history; rebuild_never_fails). The JSON decoding of the header record is an oracle (encoding/json), tied by correspondence",
+        partial="proved: reopening (read-only or writable) any state reachable by any operation sequence changes no byte, re-establishes the representation invariant and yields the same store (C02.reopen_after_any_history); scanFile ∘ render reconstructs index/free map/sequence number for every well-formed segment list (any zero tail). Collection layer: NewCollection on the file left by any sequence of document operations (any keeping mode, any caller options) succeeds, changes no byte, keeps the creation options and answers GetDocument/GetAllIDs as the specification says (reopen_collection_after_any_history; rebuild_never_fails). created_collection_reopens_identically: from creation, after any history, reopening in any keeping mode with ANY caller options yields the creation options and the specification's documents — with the model's own decoder of the options record (options_record_round_trip: decodeOpts ∘ encodeOpts = id for names without a double quote), no oracle left. That encoding/json writes and reads the record as the model does is tied by byte-exact correspondence of the file (write side) and by the harness answering decode queries for records the model did not write (read side)",
     ),
     "C13": dict(
         modules=["Syzgy.Props.C13"], ties=["Query"],
